@@ -208,8 +208,15 @@ class WitnessModel(Model):
                 r.members['coords'] = {n: (self.array(interp, items_of(c)[k], dims[0], like=c) if isinstance(c, SVar) and items_of(c) is not None and len(items_of(c)) == len(it) else c)
                                        for n, c in (v.members.get('coords') or {}).items()}
             return r
-        if isinstance(k, list) and all(isinstance(b, bool) for b in k):
+        if hasattr(k, 'tolist') and not isinstance(k, SVar):
+            k = k.tolist()  # a numpy array of indices or flags
+        if isinstance(k, list) and k and all(isinstance(b, bool) for b in k):
             return self.array(interp, [x for x, b in zip(it, k, strict=True) if b], dims[0], like=v)
+        if isinstance(k, list) and all(isinstance(b, int) and not isinstance(b, bool) for b in k):
+            try:
+                return self.array(interp, [it[b] for b in k], dims[0], like=v)  # integer-array indexing: a new array
+            except IndexError:
+                raise RaiseSignal('IndexError', node, interp.where(node), ('index out of range',)) from None
         return self._pick(interp, it, k, node)
 
     def _pick(self, interp, seq, k, node):
@@ -564,6 +571,40 @@ class WitnessModel(Model):
             return self.array(interp, flat, dim, like=parts[0])
         return super().sc_concat(interp, args, kwargs, node)
 
+    def sc_identical(self, interp, args, kwargs, node):
+        """Same dims, unit, dtype and values: decided at the witness (the same object is identical to itself)."""
+        a, b = (list(args) + [None, None])[:2]
+        if not (isinstance(a, SVar) and isinstance(b, SVar)):
+            return super().sc_identical(interp, args, kwargs, node)
+        if a is b:
+            return True
+
+        def same(p, q):
+            if p.unit != q.unit or (p.dtype or 'float64') != (q.dtype or 'float64'):
+                return False
+            vp, vq = self.value(p), self.value(q)
+            if vp is None or vq is None:
+                return None
+            return vp == vq
+        fa, fb = (self._flat(a) if self._is_arr(a) else [a]), (self._flat(b) if self._is_arr(b) else [b])
+        if self._is_arr(a) != self._is_arr(b) or len(fa) != len(fb) or (self._is_arr(a) and a.members.get('dims') != b.members.get('dims')):
+            return False
+        verdicts = [same(p, q) for p, q in zip(fa, fb, strict=True)]
+        if any(v is False for v in verdicts):
+            return False
+        if any(v is None for v in verdicts):
+            self.undecided.append((interp.where(node), 'identical'))
+            return super().sc_identical(interp, args, kwargs, node)
+        return True
+
+    def sc_allclose(self, interp, args, kwargs, node):
+        r = self.sc_isclose(interp, args, kwargs, node)
+        if isinstance(r, SVar) and (self._is_arr(r) or 'concrete' in r.members):
+            flat = self._flat(r) if self._is_arr(r) else [r]
+            if all('concrete' in x.members for x in flat):
+                return all(bool(x.members['concrete']) for x in flat)
+        return super().sc_allclose(interp, args, kwargs, node)
+
     def sc_isclose(self, interp, args, kwargs, node):
         """|x - y| <= atol + rtol * |y| decided at the witness (scipp's defaults: rtol = 1e-5, atol = 1e-8 in the unit of y)."""
         a = _bind(['x', 'y', 'rtol', 'atol', 'equal_nan'], args, kwargs, {'rtol': None, 'atol': None, 'equal_nan': False})
@@ -738,7 +779,46 @@ class WitnessModel(Model):
     LIFTED = {'norm', 'dot', 'cross', 'exp', 'sqrt', 'abs', 'sin', 'cos', 'tan', 'asin', 'acos', 'atan', 'atan2', 'where', 'reciprocal',
               'log', 'to_unit', 'isfinite', 'isnan', 'round', 'values', 'variances', 'stddevs'}
 
+    # pure numpy functions of concrete data (numbers, lists, arrays without abstract elements): evaluated by numpy itself
+    _NUMPY_CONCRETE = {'flatnonzero', 'nonzero', 'argsort', 'sort', 'arange', 'cumsum', 'diff', 'array', 'asarray', 'concatenate', 'where', 'unique',
+                       'searchsorted', 'repeat', 'tile', 'zeros', 'ones', 'full', 'empty', 'logical_and', 'logical_or', 'logical_not', 'any', 'all',
+                       'count_nonzero', 'argmax', 'argmin', 'append', 'insert', 'delete', 'roll', 'flip', 'maximum', 'minimum', 'add', 'subtract'}
+
+    def _concrete_flags(self, x):
+        """python values of an array whose elements are all decided (flags, integers), else None"""
+        if isinstance(x, SVar) and items_of(x) is not None and all('concrete' in i.members for i in items_of(x)):
+            return [i.members['concrete'] for i in items_of(x)]
+        return None
+
+    def ext_index(self, interp, path, key, node):
+        if path in ('numpy.r_', 'numpy.c_'):
+            import numpy as np
+            parts = list(key) if isinstance(key, tuple) else [key]
+            conc = [self._concrete_flags(p) if isinstance(p, SVar) else p for p in parts]
+            if all(c is not None and not isinstance(c, SVar | Opaque) for c in conc):
+                return np.r_[tuple(conc)] if path.endswith('r_') else np.c_[tuple(conc)]
+        sup = getattr(super(), 'ext_index', None)
+        if sup is not None:
+            return sup(interp, path, key, node)
+        raise AnalysisError(f'subscript of {path} at {interp.where(node)}')
+
     def call_ext(self, interp, path, args, kwargs, node):
+        if path.startswith('numpy.') and path.split('.')[-1] in self._NUMPY_CONCRETE and len(path.split('.')) == 2:
+            import numpy as np
+            fname = path.split('.')[-1]
+            if fname in ('argsort', 'argmax', 'argmin') and args and isinstance(args[0], SVar) and items_of(args[0]) is not None:
+                vals = [self.value(x) for x in items_of(args[0])]
+                if all(v is not None for v in vals):
+                    if fname == 'argsort':
+                        return np.array(sorted(range(len(vals)), key=lambda i: vals[i]), dtype=np.int64)  # stable
+                    return int(max(range(len(vals)), key=lambda i: (vals[i] if fname == 'argmax' else -vals[i], -i))) if vals else \
+                        (_ for _ in ()).throw(RaiseSignal('ValueError', node, interp.where(node), ('attempt to get argmax of an empty sequence',)))
+            conc = [self._concrete_flags(a) if isinstance(a, SVar) else a for a in args]
+            if all(c is not None and not isinstance(c, SVar | Opaque) for c in conc) and not any(isinstance(v, SVar | Opaque) for v in kwargs.values()) and args:
+                try:
+                    return getattr(np, fname)(*conc, **kwargs)
+                except (ValueError, TypeError) as ex:
+                    raise RaiseSignal(type(ex).__name__, node, interp.where(node), (str(ex),)) from None
         mod, _, name = path.rpartition('.')
         if mod in ('scipp', 'scipp.spatial') and name in self.LIFTED and any(self._is_arr(a) for a in list(args) + list(kwargs.values()) if isinstance(a, SVar)):
             arrs = [a for a in list(args) + list(kwargs.values()) if isinstance(a, SVar) and self._is_arr(a)]
